@@ -307,3 +307,99 @@ func flushAllAtomicity(run *ev.Run) {
 		run.Set("yield_point:"+k, v)
 	}
 }
+
+// halfCloseAfterBatch: a session sends a batch and half-closes at once, on a stream whose
+// writes are slow; it then reads whatever the server sends until the RPC ends. What Get
+// reports afterwards must be exactly what was acknowledged as programmed on that stream:
+// an operation whose acknowledgement was never delivered must have left no trace.
+func halfCloseAfterBatch(run *ev.Run) {
+	n := run.Pick(300, 5000)
+	ev.Parallel(n, ev.Workers(), func(i int) {
+		caseID := fmt.Sprintf("half-close-after-batch-%d", i)
+		if !run.Want(caseID) {
+			return
+		}
+		r := run.Rand(caseID)
+		srv, err := drv.NewServer([]string{"VRF1"})
+		if err != nil {
+			run.Fatal(err.Error())
+			return
+		}
+		st := drv.OpenModify(srv)
+		st.SendDelay = time.Duration(5+r.Intn(60)) * time.Microsecond
+		s := &drv.Session{Stream: st, Name: "s", DefaultNI: "VRF1"}
+		fib := i%2 == 0
+		if _, err := s.Params(drv.SinglePrimary(fib)); err != nil {
+			run.Fatal(caseID + ": " + err.Error())
+			return
+		}
+		el := &spb.Uint128{Low: 9}
+		if _, err := s.Elect(el); err != nil {
+			run.Fatal(caseID + ": " + err.Error())
+			return
+		}
+		nOps := 5 + r.Intn(150)
+		nReq := 1 + r.Intn(3)
+		var ops []*spb.AFTOperation
+		for k := 0; k < nOps; k++ {
+			ops = append(ops, nhOp(uint64(k+1), server.DefaultNetworkInstanceName, uint64(100+k), el))
+		}
+		for q := 0; q < nReq; q++ {
+			lo, hi := q*nOps/nReq, (q+1)*nOps/nReq
+			if !st.Write(&spb.ModifyRequest{Operation: ops[lo:hi]}) {
+				run.Fatal(caseID + ": the stream did not take the request")
+				return
+			}
+		}
+		st.CloseSend()
+		acked := map[string]bool{}
+		nRes := 0
+		var probs []string
+		for {
+			resp, err := st.Read()
+			if err == drv.ErrWatchdog {
+				probs = append(probs, "INCONCLUSIVE|the RPC did not end within the watchdog after the half-close")
+				break
+			}
+			if err != nil {
+				break // end of the RPC (EOF = clean)
+			}
+			for _, ar := range resp.GetResult() {
+				nRes++
+				if ar.GetStatus() == spb.AFTResult_RIB_PROGRAMMED {
+					acked[fmt.Sprintf("%s/nh:%d", server.DefaultNetworkInstanceName, 99+ar.GetId())] = true
+				}
+			}
+		}
+		if len(probs) == 0 {
+			st.WaitEnd()
+			got, p := installedNHs(srv)
+			if p != "" {
+				probs = append(probs, p)
+			}
+			var extra, missing []string
+			for k := range got {
+				if !acked[k] {
+					extra = append(extra, k)
+				}
+			}
+			for k := range acked {
+				if got != nil && !got[k] {
+					missing = append(missing, k)
+				}
+			}
+			sort.Strings(extra)
+			sort.Strings(missing)
+			if len(extra) > 0 {
+				probs = append(probs, fmt.Sprintf("contents:extra:nh|%d of %d operations are installed although their acknowledgement was never delivered before the RPC ended (%d results received): %v", len(extra), nOps, nRes, extra[:min(len(extra), 8)]))
+			}
+			if len(missing) > 0 {
+				probs = append(probs, fmt.Sprintf("contents:missing:nh|acknowledged as programmed but not installed: %v", missing[:min(len(missing), 8)]))
+			}
+		}
+		mon.Report(run, caseID, []string{fmt.Sprintf("%d ADDs of distinct next-hops in %d requests, half-close at once, server-side writes take %s each; %d results read until the RPC ended", nOps, nReq, st.SendDelay, nRes)}, probs)
+		run.Eval(1)
+		run.Count("batches_followed_by_an_immediate_half_close", 1)
+		run.Distinct(caseID)
+	})
+}
